@@ -144,3 +144,18 @@ Proof.
   split; vm_compute; reflexivity.
 Qed.
 Print Assumptions nonidempotent_not_resent_tunnel_refuted.
+
+(* KNOWN FINDING C04-F3: Retry-After is honoured for every retried status, not only for 413/429/503 - a force-listed 500
+   with Retry-After: 300 is slept on although backoff_max is 120 *)
+Theorem retry_after_only_for_413_429_503_refuted :
+  let r := mkRetry (r_total lib_default) (r_connect lib_default) (r_read lib_default) (r_redirect lib_default) (r_status lib_default)
+                   (r_other lib_default) (r_allowed lib_default) [500%Z] (r_raise_on_redirect lib_default) (r_raise_on_status lib_default)
+                   true (r_backoff_factor lib_default) (r_backoff_max lib_default) [] (r_remove_headers lib_default) in
+  Qle_bool (r_backoff_max r) 120 = true /\
+  t_sleeps (run_loop LAT (getl Gen_Urlopen.urlopen_to_sslerror) (getl Gen_Urlopen.urlopen_to_proxyerror)
+                     (getl Gen_Urlopen.urlopen_to_protocolerror) (getl Gen_Urlopen.retry_connection_error)
+                     (getl Gen_Urlopen.retry_read_error) (getl Gen_Retry.retry_after_status_codes)
+                     [mkA COk SOk (RResp 500 (Some 300%Z) true); mkA COk SOk (RResp 200 None true)] Direct (S!"GET") r)
+  = [inject_Z 300].
+Proof. vm_compute. split; reflexivity. Qed.
+Print Assumptions retry_after_only_for_413_429_503_refuted.
